@@ -1687,8 +1687,9 @@ Section SemSim.
        forall c, (st_next sst' <= c)%positive -> PM.find c (st_cells sst') = None).
   Proof.
     induction ps as [|p ps IH]; intros vs acc sst.
-    - exists sst. cbn [sem_bind length cells_from combine rev app]. repeat (split; [first [reflexivity|lia]|]).
-      split; [auto|]. split; [intros i Hi; cbn [length] in Hi; lia|auto].
+    - exists sst. cbn [sem_bind length cells_from combine rev app].
+      split; [reflexivity|]. split; [reflexivity|]. split; [reflexivity|]. split; [reflexivity|]. split; [lia|].
+      split; [intros; reflexivity|]. split; [intros i Hi; cbn [length] in Hi; lia|]. intros H c Hc. apply H. exact Hc.
     - cbn [sem_bind]. unfold new_cell.
       set (cl := st_next sst).
       set (v := match vs with v :: _ => v | [] => VNull end). set (vs' := match vs with _ :: r => r | [] => [] end).
@@ -1734,6 +1735,9 @@ Section SemSim.
     cbn [combine map fst]. rewrite IH by (cbn [length] in H; lia). reflexivity.
   Qed.
 
+  Lemma F2_length : forall A B (R : A -> B -> Prop) l1 l2, Forall2 R l1 l2 -> length l1 = length l2.
+  Proof. intros A B R l1 l2 H. induction H; cbn [length]; [reflexivity|lia]. Qed.
+
   (* the environment of the callee *)
   Definition callee_env (E : cenv) (nf : nat) (dl : decls) (N : nat) : cenv :=
     mkCE MFun (ce_ds E) dl nf (ce_L E) (ce_gh E) [] N.
@@ -1758,18 +1762,19 @@ Section SemSim.
     { intros c Hin. rewrite Msnd in Hin. exact (proj1 (cells_from_in _ _ _ Hin)). }
     split; [reflexivity|]. split; [|split; [exact E4|split; [lia|split; [exact E6|exact Hfresh]]]].
     destruct HR as [R1 R2 R3 R4 R5 R6 R7 R8 R9 R10 R11 R12 R13 R14].
-    assert (length vs' = length vs) as Lvs by (symmetry; exact (Forall2_length HV)).
+    assert (length vs' = length vs) as Lvs by (symmetry; exact (F2_length _ _ _ _ _ HV)).
     constructor; cbn [callee_env ce_mode ce_ds ce_dl ce_nf ce_L ce_gh ce_lh ce_N y0 y_m y_loc y_funs]; auto.
     - congruence.
     - rewrite map_app, Msnd. rewrite map_app in R4. apply NoDup_app_l in R4.
-      clear - R4 R7 Lc. induction (map snd (ce_ds E)) as [|a l IH]; cbn [app].
+      assert (forall c, In c (map snd (ce_ds E)) -> (c < st_next sst)%positive) as Hlt.
+      { intros c Hc. apply R7. rewrite map_app. apply in_or_app. left. exact Hc. }
+      clear - R4 Hlt. induction (map snd (ce_ds E)) as [|a l IH]; cbn [app].
       + apply cells_from_nodup.
       + inversion R4; subst. constructor.
         * intros Hin. apply in_app_or in Hin. destruct Hin as [Hin|Hin]; [contradiction|].
           destruct (cells_from_in _ _ _ Hin) as [Hge _].
-          assert (a < st_next sst)%positive by (apply R7; rewrite map_app; apply in_or_app; left; left; reflexivity). lia.
-        * apply IH; [assumption|]. intros c Hc. apply R7. rewrite map_app in *. apply in_app_or in Hc.
-          apply in_or_app. destruct Hc as [Hc|Hc]; [left; right; exact Hc|right; exact Hc].
+          assert (a < st_next sst)%positive by (apply Hlt; left; reflexivity). lia.
+        * apply IH; [assumption|]. intros c Hc. apply Hlt. right. exact Hc.
     - intros i x c Hi Hn'. unfold get_cell. rewrite E6.
       + exact (R5 i x c Hi Hn').
       + apply R7. rewrite map_app. apply in_or_app. left. apply in_map_iff. exists (x, c). split; [reflexivity|exact (nth_error_In _ _ Hi)].
@@ -1794,6 +1799,7 @@ Section SemSim.
     - intros c Hin. rewrite map_app in Hin. apply in_app_or in Hin. destruct Hin as [Hin|Hin].
       + assert (c < st_next sst)%positive by (apply R7; rewrite map_app; apply in_or_app; left; exact Hin). lia.
       + rewrite Msnd in Hin. destruct (cells_from_in _ _ _ Hin). lia.
+    - congruence.
     - intros id fe Hn'. destruct (R10 id fe Hn') as [A [clo [B C]]]. split; [exact A|]. exists clo. split; [congruence|exact C].
     - intros h [].
     - rewrite app_length, length_repeat_val. unfold zlength. lia.
